@@ -95,7 +95,10 @@ def main(argv):
         meta = json.load(open(m))
         jobs.append((os.path.join(os.path.dirname(m), "patch.diff"), meta["property"].upper(), True))
     if cross:
-        jobs = [(p, q, False) for (p, pid, expect) in jobs if not expect for q in ("C03", "C05", "C06", "C18", "C20") if q != pid]
+        def alarms(p):
+            head = open(p).read(400)
+            return head.split("cross-alarms:")[1].split()[0] if "cross-alarms:" in head else ""
+        jobs = [(p, q, q in alarms(p)) for (p, pid, expect) in jobs if not expect for q in ("C03", "C05", "C06", "C18", "C20") if q != pid]
     bad = 0
     for p, pid, expect in jobs:
         if ids and pid not in ids:
